@@ -215,7 +215,11 @@ def fn_source(n, twin=False, decorate=True):
         lines.append("        acc.append(fnarg(a))")
     for h in n.get("hidden", []):
         lines.append("    acc.append(globals()[%r](a))" % h)
-    lines.append("    return acc")
+    if n.get("ovr") and n["kind"] == "mem" and not twin:
+        # the result is published under a key the function chooses itself (the same for every edition of the function)
+        lines.append("    return _kor(acc, 'ovr/%s/%%s' %% (a,))" % name.replace(".", "_"))
+    else:
+        lines.append("    return acc")
     if n.get("cls"):
         lines = ["class %s:" % n["cls"], "    @staticmethod"] + ["    " + ln for ln in lines]
     return "\n".join(lines) + "\n"
@@ -225,6 +229,7 @@ HEADER = '''"""generated by /verif/harness/vprogs.py"""
 import functools
 import sys
 import twosigma.memento as m
+from twosigma.memento.result import KeyOverrideResult as _kor
 from verif_side import log
 
 
